@@ -184,6 +184,22 @@ Proof.
   exact (stable_available_means_recovered H content es Hfun pc Hwf Hall Hcr Hhash Hpadz Hne Hone wit s s' i o Ha Hp Hv Hn Hr Hn').
 Qed.
 
+(** ... also when every other program may fault (C13). *)
+Theorem present_means_recovered_despite_faults H content es0 ix es dev under pc s s' i o :
+  table_functional content es -> wf_piece content pc -> Forall (fun sg => In (ps_entry sg) es) (w_segs pc) ->
+  cr H content pc -> H (piece_bytes content pc) = w_hash pc -> Forall (pad_zero content) (w_segs pc) ->
+  w_segs pc <> [] -> (forall sg, w_segs pc = [sg] -> ps_len sg <> 0) ->
+  populate ix es0 = Ok es -> ix_of_fs (s_fs s) dev under es0 ix ->
+  Forall (seg_present_stable content (s_fs s) under es0 es) (w_segs pc) ->
+  alias_free content es (s_fs s) -> Forall (pgood content es) (s_pool s) ->
+  nth_error (s_pool s) i = Some (solve_prog H pc) -> mreach i s s' -> nth_error (s_pool s') i = Some (Ret o) ->
+  o = Success /\ forall sg, In sg (w_segs pc) -> e_pad (ps_entry sg) = false -> holds_seg content (s_fs s') sg.
+Proof.
+  intros Hfun Hwf Hall Hcr Hhash Hpadz Hne Hone Hpop Hix Hps Ha Hp Hn Hr Hn'.
+  destruct (present_means_stably_available content (s_fs s) dev under es0 ix es Hpop Hix pc Hall Hps) as [wit Hv].
+  exact (stable_available_despite_faults H content es Hfun pc Hwf Hall Hcr Hhash Hpadz Hne Hone wit s s' i o Ha Hp Hv Hn Hr Hn').
+Qed.
+
 (** The pre-flight of --resize-export-files makes a short export file a source (C14): after
     [SetLen target declared] on a shorter file the segment's bytes that were there are still there
     and the file now has exactly the declared length, so it is [present] at its own export
